@@ -35,10 +35,10 @@ theorem takeWhile_app_stop {f : Char → Bool} {a r : Str} (ha : a.all f = true)
   | nil =>
     cases r with
     | nil => rfl
-    | cons c cs => simp [List.takeWhile_cons, hr c rfl]
+    | cons c cs => simp [hr c rfl]
   | cons c cs ih =>
     simp only [List.all_cons, Bool.and_eq_true] at ha
-    simp [List.takeWhile_cons, ha.1, ih ha.2]
+    simp [ha.1, ih ha.2]
 
 theorem skipBytes_app {f : Char → Bool} (pos : Nat) {a r : Str} (ha : a.all f = true)
     (hr : Stops f r) : skipBytes f ⟨pos, a ++ r⟩ = ⟨pos + strLen a, r⟩ := by
@@ -87,7 +87,7 @@ theorem scanChars_comment {a r : Str} (ha : a.all isXmlChar = true)
         simp [this]
       | cons d ds =>
         have := h1.1
-        simp only [litDashDash, List.cons_append, List.isPrefixOf_cons_cons, List.isPrefixOf_nil_left,
+        simp only [litDashDash, List.isPrefixOf_cons_cons, List.isPrefixOf_nil_left,
           Bool.and_true] at this
         simp only [litCommentClose, List.cons_append, List.isPrefixOf_cons_cons]
         cases hc : c == '-' <;> simp_all
